@@ -3,6 +3,7 @@ import Proofs.Machine.ColorOnlyCombined
 import Proofs.Machine.ColorOnlyPlain
 import Proofs.Machine.ColorOnlyTextAny
 import Proofs.ColorOnlyCfg
+import Proofs.ColorOnlyPaint
 /-!
 C02 — `--color-only` is a line-for-line, text-preserving filter.
 
@@ -482,5 +483,143 @@ theorem raw_without_color_only_not_line_for_line :
     (match run { presetCfg with mergeConflicts := false } binarySubmodule with
      | .ok m => m.out.map (·.src) == List.range 10 && m.out.map (·.text) == binarySubmodule.map (·.raw)
      | .error _ => false) = true := by decide
+
+-- session 4 / T16: from the machine's row to the bytes of the output line ----------------------------
+
+section Painted
+open ColorOnlyPaint
+
+/-- **Where `paint_lines` takes the prefix of a line from** (tables regenerated from `src/paint.rs` by
+`tools/extractors/paintprefix.py` and `paintline.py`): inside its loop over `lines`, as `painted_prefix(<state of the
+line being painted>, config)`, with nothing computed in front of the loop — per line, not per block — and the statements
+of `paint_line` / the loop body are the modelled ones. (A prefix painted once per block, as in the seeded change C02-w6-02,
+makes `prefixSource` read `other: …` and this theorem false.) -/
+theorem prefix_taken_from_each_lines_own_state :
+    prefixPerLine = true ∧ PaintLine.shapeAsModelled = true :=
+  ⟨ColorOnlyPaintProofs.prefix_per_line, PaintLineProofs.shape_as_modelled⟩
+
+/-- **What the bytes of a painted line show** (`visible` = the characters an ECMA-48 terminal displays: escape sequences
+stripped), for every Config, state, section list, styles, fill request, width: the prefix `painted_prefix` gives for the
+line's **own** state (in front of the first section), the texts of the sections, and what the fill step puts behind them
+(`lineTrail`: the blanks of the space fill, the blank marker of an empty line under `--line-numbers`). Hypotheses:
+styles are Rust values, texts are ESC-free (`Input.ok`, as in C09), and no line-number gutter (`--color-only` does not
+switch `--line-numbers` off; the gutter's text would come first). -/
+theorem painted_line_shows_prefix_text_trail (pc : PaintLine.Cfg) (hpc : PaintLineProofs.Cfg.wf pc) (inp : PaintLine.Input)
+    (hin : PaintLineProofs.Input.ok inp) (hg : inp.gutter = []) (out : List Char)
+    (h : PaintLine.paintedLine pc inp = .ok out) :
+    visible out = (if inp.sections.isEmpty then [] else shownPrefix pc inp.st) ++ sectionsText inp.sections ++
+      lineTrail pc inp :=
+  ColorOnlyPaintProofs.paintedLine_shows pc hpc inp hin hg out h
+
+/-- **`color_only_painted_bytes_show_input_line`** — the row of the machine model and the bytes written for it agree: for a
+hunk line of kind `k` and diff type `dt` (unified, or combined with any number of parents: the state then carries the
+line's own prefix columns), painted by `paint_lines` from the state `stOf k dt raw` under any styles, the bytes with the
+escape sequences stripped are `Machine.paintedPrefix mc k dt ++ Machine.prepare mc n l` — exactly the text of the machine's
+row for that line. Inputs of `paintedLine` and where they come from: the state (hence the prefix) from the machine's
+classification of the line — per line, `prefix_taken_from_each_lines_own_state`; `keepMarkers` the same Config field
+(`hk`); the section texts spell the prepared line (`htext`: `superimpose_style_sections` keeps the text, compared in the
+correspondence `copaint.line`, not proved); no gutter (`hg`, `hln`: `--line-numbers` not asked for); the fill decision is
+not the space fill (`hns`, decidable; needed: `zero_style_background_pads_context_lines`); at least one section (`hsec`;
+needed: `prefix_needs_a_section`). -/
+theorem color_only_painted_bytes_show_input_line (mc : Machine.Cfg) (pc : PaintLine.Cfg) (hpc : PaintLineProofs.Cfg.wf pc)
+    (hk : pc.keepMarkers = mc.keepMarkers) (hln : pc.lineNumbers = false)
+    (k : LineKind) (dt : DiffType) (raw : Bool) (n : Nat) (l : L)
+    (inp : PaintLine.Input) (hin : PaintLineProofs.Input.ok inp) (hst : inp.st = stOf k dt raw) (hg : inp.gutter = [])
+    (hsec : inp.sections ≠ []) (htext : sectionsText inp.sections = prepare mc n l)
+    (hns : noSpaceFill pc inp = true) (out : List Char) (h : PaintLine.paintedLine pc inp = .ok out) :
+    visible out = Machine.paintedPrefix mc k dt ++ prepare mc n l := by
+  rw [ColorOnlyPaintProofs.paintedLine_visible_exact pc hpc inp hin hg hln hns hsec out h, hst, htext,
+    (ColorOnlyPaintProofs.shownPrefix_machine pc mc hk k dt raw).2]
+
+/-- … composed with the text theorem of a unified hunk line (`co_hunk_line_text`): under the presets `--color-only`
+implies (markers kept, tab width 0) the painted bytes, stripped, are **the input line's visible text**. -/
+theorem color_only_painted_bytes_show_input_line_unified (mc : Machine.Cfg) (ps : Preset mc) (pc : PaintLine.Cfg)
+    (hpc : PaintLineProofs.Cfg.wf pc) (hk : pc.keepMarkers = mc.keepMarkers) (hln : pc.lineNumbers = false)
+    (k : LineKind) (raw : Bool) (l : L) (c : Char) (rest : Str) (hl : l.text = c :: rest) (hc : c.toNat < 128)
+    (hm : c = (match k with | .minus => '-' | .zero => ' ' | .plus => '+'))
+    (inp : PaintLine.Input) (hin : PaintLineProofs.Input.ok inp) (hst : inp.st = stOf k .unified raw) (hg : inp.gutter = [])
+    (hsec : inp.sections ≠ []) (htext : sectionsText inp.sections = prepare mc 1 l)
+    (hns : noSpaceFill pc inp = true) (out : List Char) (h : PaintLine.paintedLine pc inp = .ok out) :
+    visible out = l.text := by
+  rw [color_only_painted_bytes_show_input_line mc pc hpc hk hln k .unified raw 1 l inp hin hst hg hsec htext hns out h]
+  exact co_hunk_line_text mc l c rest k ps.keep ps.tab0 hl hc hm
+
+/-- … and of a combined-diff hunk line with any number `n` of parents (`classifyCombined_text`; `ColsOK`: prefix columns
+that contain a `+` or `-` are ASCII): each line shows **its own** prefix columns followed by the rest of the line. -/
+theorem color_only_painted_bytes_show_input_line_combined (mc : Machine.Cfg) (ps : Preset mc) (pc : PaintLine.Cfg)
+    (hpc : PaintLineProofs.Cfg.wf pc) (hk : pc.keepMarkers = mc.keepMarkers) (hln : pc.lineNumbers = false)
+    (n : Nat) (l : L) (k : LineKind) (dt : DiffType) (raw : Bool) (hcols : ColsOK n l = true)
+    (hcl : classifyCombined n false l = some (k, dt))
+    (inp : PaintLine.Input) (hin : PaintLineProofs.Input.ok inp) (hst : inp.st = stOf k dt raw) (hg : inp.gutter = [])
+    (hsec : inp.sections ≠ [])
+    (htext : ∀ pre, dt = .combined (.pre pre) false → sectionsText inp.sections = prepare mc (prefixBytes pre) l)
+    (hns : noSpaceFill pc inp = true) (out : List Char) (h : PaintLine.paintedLine pc inp = .ok out) :
+    visible out = l.text := by
+  obtain ⟨pre, hdt, _, htxt⟩ := classifyCombined_text ps hcols hcl
+  rw [color_only_painted_bytes_show_input_line mc pc hpc hk hln k dt raw (prefixBytes pre) l inp hin hst hg hsec
+    (htext pre hdt) hns out h]
+  exact htxt
+
+/-- **A block of lines** (what one call of `paint_lines` writes: the removed lines or the added lines of a subhunk, or one
+context line): every output line shows the prefix of its own state and its own text. -/
+theorem color_only_painted_block_shows_each_line (pc : PaintLine.Cfg) (hpc : PaintLineProofs.Cfg.wf pc)
+    (hln : pc.lineNumbers = false) (lines : List PaintLine.Input)
+    (hl : ∀ inp ∈ lines, PaintLineProofs.Input.ok inp ∧ inp.gutter = [] ∧ noSpaceFill pc inp = true ∧ inp.sections ≠ [])
+    (outs : List (List Char)) (h : paintedBlock pc lines = .ok outs) :
+    outs.map visible = lines.map fun inp => shownPrefix pc inp.st ++ sectionsText inp.sections :=
+  ColorOnlyPaintProofs.paintedBlock_shows pc hpc hln lines hl outs h
+
+/-- A header row drawn raw (the raw styles of the presets) is the input line itself: without escape sequences it shows
+itself. -/
+theorem raw_row_shows_itself (l : List Char) (h : Term.ESC ∉ l) : visible l = l :=
+  ColorOnlyPaintProofs.visible_raw l h
+
+/-- the clusters of an ASCII text -/
+def cl (s : String) : List Line.G := PaintLine.asciiClusters s.toList
+
+def red : Sgr.Style := { fg := some (.basic 1) }
+def onGreen : Sgr.Style := { bg := some (.fixed 22), bold := true }
+def paintCfg : PaintLine.Cfg := { minusStyle := red, plusStyle := onGreen, keepMarkers := true }
+
+/-- a removed block of a two-parent combined diff whose lines have *different* prefix columns, the second one in two
+sections of different styles -/
+def mixedBlock : List PaintLine.Input :=
+  [{ st := stOf .minus (.combined (.pre "- ".toList) false) false, sections := [(red, cl "\tlet a = 1;")], bg := .with_ .ansi },
+   { st := stOf .minus (.combined (.pre " -".toList) false) false,
+     sections := [(red, cl "\tlet b = "), (onGreen, cl "2;")], bg := .with_ .ansi }]
+
+/-- the hypotheses are met and the conclusion is what the model computes: each line keeps its own columns (with the first
+line's prefix for the whole block the second line would read `- \tlet b = 2;`) -/
+example : (match paintedBlock paintCfg mixedBlock with
+    | .ok outs => outs.map visible == ["- \tlet a = 1;".toList, " -\tlet b = 2;".toList] &&
+        outs.all (fun o => o.contains Term.ESC)
+    | .error _ => false) = true := by decide
+example : ∀ inp ∈ mixedBlock, inp.gutter = [] ∧ noSpaceFill paintCfg inp = true ∧ inp.sections ≠ [] := by decide
+
+/-- `hns` is needed — and delta does this under `--color-only`: a context line is painted with the space fill requested
+(`paint_zero_line`), so a `zero-style` with a background colour pads the line with blanks up to the terminal width: the
+visible text of the output line is the input line **plus trailing blanks** (same on the binary:
+`--color-only --zero-style 'normal red'`). -/
+theorem zero_style_background_pads_context_lines :
+    (match PaintLine.paintedLine { paintCfg with zeroStyle := { bg := some (.basic 1) }, availWidth := 8 }
+        { st := stOf .zero .unified false, sections := [({ bg := some (.basic 1) }, cl "ctx")], bg := .with_ .spaces } with
+     | .ok out => visible out
+     | .error _ => []) = " ctx    ".toList := by decide
+
+/-- `hsec` is needed: the prefix is pushed in front of the first section, so a line without any section shows nothing. -/
+theorem prefix_needs_a_section :
+    (match PaintLine.paintedLine paintCfg { st := stOf .plus .unified false, sections := [] } with
+     | .ok out => visible out
+     | .error _ => ['?']) = [] ∧ shownPrefix paintCfg (stOf .plus .unified false) = ['+'] := by decide
+
+/-- `hln` is needed: with `--line-numbers` the marker of an empty line is a blank (and the gutter comes first). -/
+theorem line_numbers_mark_empty_lines_with_a_blank :
+    (match PaintLine.paintedLine { paintCfg with lineNumbers := true }
+        { st := stOf .plus .unified false, sections := [(onGreen, [])], syntaxEmpty := true, emptyStyle := some onGreen,
+          bg := .no } with
+     | .ok out => visible out
+     | .error _ => []) = "+ ".toList := by decide
+
+end Painted
 
 end C02
